@@ -424,3 +424,19 @@ Proof. cbn. rewrite updf_eq. apply delset_not_In. Qed.
 
 Lemma sreach_run st ls : sreach st -> sreach (srun st ls).
 Proof. revert st. induction ls as [|l ls IH]; intros st H; cbn; auto. apply IH. now constructor. Qed.
+
+(* ------------------------------------------------------------------ the hypotheses are satisfiable *)
+
+(* two subscribers of topic 0; publisher 7 takes its snapshot, subscriber 0 unsubscribes, the
+   publish completes (subscriber 0 still gets that event), a second publish reaches only subscriber 1 *)
+Definition ex_labels : list slabel :=
+  [SNew; SNew; SSubSelf 0 0; SMapAdd 0 0; SSubSelf 1 0; SMapAdd 1 0;
+   SPubSnap 7 0 100; SUnsubSelf 0 0; SMapDel 0 0; SPubChk 7; SPubEnq 7; SPubChk 7; SPubEnq 7;
+   SPubSnap 7 0 101; SPubChk 7; SPubEnq 7; SDrain 1 1].
+
+Example ex_sreach :
+  let st := srun sinit ex_labels in
+  sreach st /\ have st 0 = [mkMsg 0 100 7 0] /\ have st 1 = [mkMsg 0 100 7 0; mkMsg 0 101 7 1] /\
+  ppend st 7 = None /\ sa (ssubs st 1) = true /\
+  snaplog st = [(mkMsg 0 100 7 0, [0; 1]); (mkMsg 0 101 7 1, [1])].
+Proof. split; [apply sreach_run; constructor|]. vm_compute. repeat split; reflexivity. Qed.
